@@ -202,6 +202,16 @@ theorem multipatch_bcs_once {β : Type} (Ns p2g : List (List Nat))
     simp only [bind, Except.bind] at h
     exact ⟨(combine_bcs_spec bcs ui uv h).1, (combine_bcs_spec bcs ui uv h).2.2⟩
 
+/-- ★ `_drop_nans` keeps exactly the positions whose value is not NaN (`none`), in their order,
+and keeps the index and the value of a position together (`ks` is the list of kept positions). -/
+theorem drop_nans_spec {β : Type} (idx : List Nat) (vals : List (Option β)) (h : idx.length = vals.length) :
+    ∃ ks : List Nat, ks.Sublist (List.range vals.length) ∧
+      (∀ k, k ∈ ks ↔ k < vals.length ∧ (vals.getD k none).isSome) ∧
+      (dropNans idx vals).1 = ks.map (fun k => idx.getD k 0) ∧
+      (dropNans idx vals).2 = ks.map (fun k => vals.getD k none) := dropNans_spec idx vals h
+
+example : dropNans [4, 7, 9] [some (1 : Int), none, some 3] = ([4, 9], [some 1, some 3]) := by decide
+
 /-! ## boundary dofs: faces of the tensor-product index set -/
 
 section faces
